@@ -230,7 +230,6 @@ class StingyConfigurator(pg.All):
         super().__init__(*propositions, variable=id)
 
     @property
-    @functools.lru_cache
     def ge_polyhedron(self) -> pnd.ge_polyhedron_config:
 
         """
@@ -240,13 +239,31 @@ class StingyConfigurator(pg.All):
             -------
                 out : :class:`puan.ndarray.ge_polyhedron_config`
         """
-        ge_polyhedron = self.to_ge_polyhedron(True)
-        return pnd.ge_polyhedron_config(
-            ge_polyhedron, 
-            default_prio_vector=ge_polyhedron.A.construct(self.default_prios),
-            variables=ge_polyhedron.variables, 
-            index=ge_polyhedron.index, 
-        )
+        # The polyhedron is kept on this instance only, together with the
+        # text form of the model it was created from. A cache shared between
+        # instances would be keyed on __hash__/__eq__, which do not tell apart
+        # all configurators.
+        key = self.to_text()
+        memo = self.__dict__.get("_ge_polyhedron_memo", None)
+        if memo is None or memo[0] != key:
+            ge_polyhedron = self.to_ge_polyhedron(True)
+            memo = (
+                key,
+                pnd.ge_polyhedron_config(
+                    ge_polyhedron, 
+                    default_prio_vector=ge_polyhedron.A.construct(self.default_prios),
+                    variables=ge_polyhedron.variables, 
+                    index=ge_polyhedron.index, 
+                )
+            )
+            self.__dict__["_ge_polyhedron_memo"] = memo
+        return memo[1]
+
+    def __getstate__(self):
+        # the memorized polyhedron is not a part of the model
+        state = self.__dict__.copy()
+        state.pop("_ge_polyhedron_memo", None)
+        return state
 
     @property
     def default_prios(self) -> typing.Dict[str, int]:
@@ -269,7 +286,6 @@ class StingyConfigurator(pg.All):
             )
         )
 
-    @functools.lru_cache
     def leafs(self) -> typing.List[puan.variable]:
 
         """
